@@ -117,47 +117,44 @@ Proof.
   intros E. apply (f_equal (fun d => length (d_nodes d))) in E. vm_compute in E. discriminate.
 Qed.
 
-(* with `self.data` repaired to `node.data` the search finds a selectedcontent,
-   but the breadth-first one, which need not be the first in tree order *)
-Theorem selectedcontent_order_refuted_after_repair : ~ selectedcontent_property true.
-Proof.
-  intros P.
-  specialize (P w2 6 (state_of (rrun true w2)) (state_of (rrun true (w2 ++ [OpCloneOption 6]))) 6).
-  assert (C : contract_run init (w2 ++ [OpCloneOption 6]) = true) by (vm_compute; reflexivity).
-  assert (R : rrun true w2 = Ok (state_of (rrun true w2))) by (vm_compute; reflexivity).
-  assert (N : rresolve (state_of (rrun true w2)) 6 = Some 6) by (vm_compute; reflexivity).
-  assert (A : rapply true (state_of (rrun true w2)) (OpCloneOption 6)
-              = Ok (state_of (rrun true (w2 ++ [OpCloneOption 6])))) by (vm_compute; reflexivity).
-  specialize (P C R N A). unfold selectedcontent_filled in P.
-  set (d := abs (state_of (rrun true w2))) in *.
-  assert (E1 : nearest_select d (S (size d)) (parent_of d 6) false = Some 1) by (vm_compute; reflexivity).
-  rewrite E1 in P.
-  assert (E2 : has_attr_local s_multiple (attrs_of (data_of d 1)) = false) by (vm_compute; reflexivity).
-  rewrite E2 in P.
-  assert (E3 : first_in_tree_order d (fun x => is_html x s_selectedcontent) (S (size d)) (kids d 1) = Some 4)
-    by (vm_compute; reflexivity).
-  rewrite E3 in P.
-  assert (E4 : has_attr_local s_selected (attrs_of (data_of d 6)) = true) by (vm_compute; reflexivity).
-  rewrite E4 in P.
-  destruct P as [fuel [ts1 [ts2 [H1 [H2 H3]]]]].
-  apply all_some_length in H1. apply all_some_length in H2.
-  apply (f_equal (@length tree)) in H3. rewrite !map_length in H3.
-  assert (L1 : length (rkids (state_of (rrun true (w2 ++ [OpCloneOption 6]))) 4) = 0) by (vm_compute; reflexivity).
-  assert (L2 : length (kids d 6) = 1) by (vm_compute; reflexivity).
-  congruence.
-Qed.
+(* with `self.data` repaired to `node.data` the search found a selectedcontent, but the breadth-first one; since the
+   second repair in /repo (tree order, HTML elements only) the first selectedcontent in tree order is filled.  On
+   the three witnesses the repaired model now REFINES the specification, cloning included (a TEST by vm_compute on
+   three sequences; the refinement theorem itself is still stated for sequences whose clone requests are trivial) *)
+Theorem clone_witnesses_refine_after_repair :
+  abs (state_of (rrun true (w1 ++ [OpCloneOption 4]))) = run (w1 ++ [OpCloneOption 4]) /\
+  abs (state_of (rrun true (w2 ++ [OpCloneOption 6]))) = run (w2 ++ [OpCloneOption 6]) /\
+  length (rkids (state_of (rrun true (w2 ++ [OpCloneOption 6]))) 4) = 1 /\
+  rkids (state_of (rrun true (w2 ++ [OpCloneOption 6]))) 5 = [].
+Proof. vm_compute. repeat split; reflexivity. Qed.
 
-(* ... and clone_with_subtree gives every copy the ORIGINAL's parent link, so the
-   parent-link invariant breaks although every operation respected the contract *)
-Theorem parent_links_refuted_after_repair :
-  exists ops s, rc_contract_run true rinit ops = true /\ rrun true ops = Ok s /\
-                exists n p, rparent s n = Some p /\ ~ In n (rkids s p).
-Proof.
-  exists (w1 ++ [OpCloneOption 4]), (state_of (rrun true (w1 ++ [OpCloneOption 4]))).
-  split; [vm_compute; reflexivity|]. split; [vm_compute; reflexivity|].
-  exists 8, 4. split; [vm_compute; reflexivity|].
-  vm_compute. intuition discriminate.
-Qed.
+(* clone_with_subtree used to give every copy the ORIGINAL's parent link, and the children replaced in the
+   selectedcontent kept theirs, so the parent-link invariant broke although every operation respected the contract
+   (reachable by parsing: RcDom panicked in remove_from_parent).  Repaired in /repo; on the former witness, and on
+   one in which the selectedcontent had children of its own, every parent link now names the node whose child list
+   holds the node, and every listed child points back. *)
+Definition links_ok_b (s : rc) : bool :=
+  forallb (fun n =>
+             match rparent s n with
+             | Some p => existsb (Nat.eqb n) (rkids s p)
+             | None => true
+             end &&
+             forallb (fun k => match rparent s k with Some p => Nat.eqb p n | None => false end) (rkids s n))
+          (seq 0 (rsize s)).
+(* <select><selectedcontent><b>old</b></selectedcontent><option selected>A<b>c</b></option></select> *)
+Definition w1b : list sinkop :=
+  [ el 1 s_select ; OpAppend 0 (inl 1) ;
+    el 2 s_selectedcontent ; OpAppend 1 (inl 2) ;
+    el 3 s_b ; OpAppend 2 (inl 3) ; OpAppend 3 (inr [111%N]) ;
+    OpCreateElement 4 (hq s_option) [a_selected] false false false ; OpAppend 1 (inl 4) ;
+    OpAppend 4 (inr [65%N]) ;
+    el 5 s_b ; OpAppend 4 (inl 5) ; OpAppend 5 (inr [99%N]) ].
+Theorem parent_links_repaired_witnesses :
+  links_ok_b (state_of (rrun true (w1 ++ [OpCloneOption 4]))) = true /\
+  links_ok_b (state_of (rrun true (w1b ++ [OpCloneOption 4]))) = true /\
+  rparent (state_of (rrun true (w1b ++ [OpCloneOption 4]))) 3 = None /\
+  length (rkids (state_of (rrun true (w1b ++ [OpCloneOption 4]))) 2) = 2.
+Proof. vm_compute. repeat split; reflexivity. Qed.
 
 (* Outside the contract (the tree builders never do this, the trait documentation
    allows it): append_before_sibling with a node that is an EARLIER sibling under
